@@ -15,6 +15,14 @@ import GradysProofs.Lemmas.CameraReal
   * `C19_translation`      ℝ: translating the whole scene changes no verdict.
   * `C19_unclamped_can_fail`  the pinned (unclamped) decision errs exactly when the computed cosine
                            leaves the domain of `acos`, e.g. for every value above 1 over ℝ (F19).
+  * `C19_change_facing_own`   any scalar type, several cameras, configuration objects held by
+                           reference (`Camera.Fleet`): `change_facing` on one camera changes the axis
+                           of that camera and of no other — not even of a camera holding the same
+                           configuration object; the constructor gives the new camera the
+                           configuration it was passed and touches no other camera.
+  * `C19_fleet_spec`       ℝ: after any `change_facing` on ANOTHER camera the picture of a camera is
+                           still exactly the other nodes in ITS cone; the re-aimed camera reports
+                           exactly the other nodes in the cone around its new axis.
 -/
 open Real
 
@@ -188,5 +196,65 @@ theorem C19_unclamped_can_fail :
   refine ⟨h1, h2, fun c distance x hr h0 hx => ⟨?_, judgeWith_ne_error c _ _⟩⟩
   exact (h1 c distance x ((RealScalar.gt_eq_false _ _).mpr hr)
     ((RealScalar.gt_eq _ _).mpr (by simpa using h0))).mpr (h2 x (Or.inl hx))
+
+/-! ### several cameras — `change_facing` re-aims the camera it is called on, and only that one -/
+
+/-- **Every camera has its own axis** (any scalar type).  In a fleet of cameras whose configuration
+    objects are held by reference (several cameras may hold one object, `change_facing` writes the
+    new angles into it):
+    (1) `change_facing` on camera `i` leaves what every other camera `j` works with — node, reach,
+        cone angle, axis, tolerance — unchanged, hence
+    (2) every picture of every other camera, for every scene;
+    (3) camera `i` itself works with its previous data except for the two new angles;
+    (4) the constructor gives the new camera exactly the configuration it was passed and leaves the
+        cameras built before untouched. -/
+theorem C19_change_facing_own {S : Type} [Scalar S] (f : Fleet S) (i : Nat) (elev rot : S) :
+    (∀ j, j ≠ i → (f.changeFacing i elev rot).view j = f.view j) ∧
+    (∀ j, j ≠ i → ∀ (self : V3 S) (nodes : List (Nat × V3 S)),
+        (f.changeFacing i elev rot).takePicture j self nodes = f.takePicture j self nodes) ∧
+    (∀ selfId c, f.view i = some (selfId, c) →
+        (f.changeFacing i elev rot).view i
+          = some (selfId, { c with elevationDeg := elev, rotationDeg := rot })) ∧
+    (∀ selfId k c, f.confs[k]? = some c →
+        (f.construct selfId k).view f.cams.length = some (selfId, c) ∧
+        ∀ j, j < f.cams.length → (f.construct selfId k).view j = f.view j) := by
+  refine ⟨view_changeFacing_ne f i elev rot, fun j hj self nodes => ?_,
+    view_changeFacing_eq f i elev rot, fun selfId k c hk => view_construct f selfId k c hk⟩
+  unfold Fleet.takePicture
+  rw [view_changeFacing_ne f i elev rot j hj]
+
+/-- non-vacuity, and the aliasing is really in the model: two cameras built from ONE configuration
+    object looking down (elevation 180); re-aiming camera 0 to elevation 90 writes 90 into the shared
+    object, camera 0 now works with 90 — and camera 1 still with 180. -/
+example :
+    let f := ((Fleet.mk [(⟨20, 30, 180, 0, 0⟩ : Config ℝ)] []).construct 0 0).construct 1 0
+    let g := f.changeFacing 0 90 0
+    (g.confs[0]?.map (·.elevationDeg)) = some 90 ∧
+    ((g.view 0).map (·.2.elevationDeg)) = some 90 ∧
+    ((g.view 1).map (·.2.elevationDeg)) = some 180 := by
+  simp [Fleet.construct, Fleet.changeFacing, Fleet.view]
+
+open Classical in
+/-- **Specification for a fleet over ℝ.**  Camera `j` works with `(selfId, c)`.  After
+    `change_facing` on any OTHER camera `i` — sharing the configuration object or not — the picture of
+    `j` is exactly the registered nodes other than its own inside the cone of `c`; and the picture
+    of the re-aimed camera is exactly the other nodes inside the cone around its NEW axis (reach and
+    cone angle as before). -/
+theorem C19_fleet_spec (f : Fleet ℝ) (i : Nat) (elev rot : ℝ) (self : V3 ℝ)
+    (nodes : List (Nat × V3 ℝ)) :
+    (∀ j selfId c, j ≠ i → f.view j = some (selfId, c) →
+        (f.changeFacing i elev rot).takePicture j self nodes
+          = some (nodes.filter (fun p => decide (p.1 ≠ selfId ∧ InCone c self p.2)))) ∧
+    (∀ selfId c, f.view i = some (selfId, c) →
+        (f.changeFacing i elev rot).takePicture i self nodes
+          = some (nodes.filter (fun p => decide (p.1 ≠ selfId ∧
+              InCone { c with elevationDeg := elev, rotationDeg := rot } self p.2)))) := by
+  refine ⟨fun j selfId c hj hv => ?_, fun selfId c hv => ?_⟩
+  · unfold Fleet.takePicture
+    rw [view_changeFacing_ne f i elev rot j hj, hv]
+    exact (C19_spec c selfId self nodes).2.2.2.1
+  · unfold Fleet.takePicture
+    rw [view_changeFacing_eq f i elev rot selfId c hv]
+    exact (C19_spec _ selfId self nodes).2.2.2.1
 
 end C19
